@@ -30,10 +30,16 @@ pub struct MemLog {
 }
 
 impl MemLog {
-    async fn gate(&self) {
-        while self.hold.load(Ordering::SeqCst) {
-            tokio::time::sleep(std::time::Duration::from_micros(200)).await;
+    /// While the harness holds the IO path, appends fail like a transient disk error: the IO task logs
+    /// it, does not advance the durable index and goes on serving control commands (blocking here
+    /// would dead-lock the Raft loop, which awaits Reset / Purge / ReplaceRange completions).
+    fn gate(&self) -> R<()> {
+        if self.hold.load(Ordering::SeqCst) {
+            return Err(Error::System(SystemError::Storage(StorageError::StateMachineError(
+                "verif: IO held".into(),
+            ))));
         }
+        Ok(())
     }
     pub fn snapshot_cache(&self) -> BTreeMap<u64, Entry> {
         self.cache.lock().unwrap().clone()
@@ -57,7 +63,7 @@ impl LogStore for MemLog {
         &self,
         entries: Vec<Entry>,
     ) -> R<()> {
-        self.gate().await;
+        self.gate()?;
         self.persist_calls.fetch_add(1, Ordering::SeqCst);
         let mut g = self.cache.lock().unwrap();
         for e in entries {
@@ -89,7 +95,6 @@ impl LogStore for MemLog {
         &self,
         from: u64,
     ) -> R<()> {
-        self.gate().await;
         self.cache.lock().unwrap().retain(|k, _| *k < from);
         Ok(())
     }
